@@ -478,11 +478,57 @@ def gen_sd(rng, tier, cs):
                ('sd', n, f.coq, step, tol, pd, N, len(t1), tuple(x0)) if N > 0 else None)
 
 
+def gen_dr(rng, tier, cs):
+    from odl.solvers.nonsmooth.douglas_rachford import douglas_rachford_pd
+    for k in range(20 if tier == 'quick' else 100):
+        n, _ = _sizes(rng, tier)
+        nops = rng.choice([0, 1, 2, 2, 3])
+        ms = [rng.randint(1, 3) for _ in range(nops)]
+        if nops >= 2 and rng.random() < 0.5:
+            ms[1] = ms[0]
+        Ms = [_mat(rng, m, n) for m in ms]
+        f = _fk(rng, n, 'prox')
+        gs = [_fk(rng, m, 'cc') for m in ms]
+        ls = None
+        if nops and rng.random() < 0.3:
+            ls = [F('l2sq', '(FL2sq %s)' % C.q(c), (lambda sp, c=c: c * __import__('odl').solvers.L2NormSquared(sp)), '%g*L2sq' % c)
+                  for c in [rng.choice([0.5, 2.0]) for _ in ms]]
+        tau = _dy(rng)
+        sigma = [_dy(rng) for _ in ms]
+        const = rng.random() < 0.6
+        lams = [rng.choice([1.0, 0.5, 1.5])] if const else [rng.choice([1.0, 0.5, 1.5, 0.25]) for _ in range(rng.randint(2, 4))]
+        x0 = _vec(rng, n)
+        N = _niter(rng, tier, k)
+        Ls = [_mop(M, n) for M in Ms]
+        dom = _rn(n)
+        fo = f.build(dom)
+        go = [g.build(Li.range) for g, Li in zip(gs, Ls)]
+        kw = {}
+        if ls is not None:
+            kw['l'] = [l.build(Li.range) for l, Li in zip(ls, Ls)]
+        lam_arg = lams[0] if const else (lambda j: lams[min(j, len(lams) - 1)])
+        t1, c1 = _rec()
+        x = dom.element(x0)
+        douglas_rachford_pd(x, fo, go, Ls, N, tau=tau, sigma=sigma, callback=c1, lam=lam_arg, **kw)
+        fin = np.asarray(x).tolist()
+        cs.add('{| kr_nc := %d; kr_Ms := %s; kr_f := %s; kr_gs := %s; kr_ls := %s; kr_tau := %s; kr_sigma := %s; '
+               'kr_lam := %s; kr_x := %s; kr_n := %d; kr_tr := %s; kr_fin := %s |}'
+               % (n, C.lst(Ms, C.qss), f.coq, C.lst([g.coq for g in gs]),
+                  'None' if ls is None else '(Some %s)' % C.lst([l.coq for l in ls]), C.q(tau), C.qs(sigma),
+                  C.qs(lams), C.qs(x0), N, C.qss(t1), C.qs(fin)),
+               {'solver': 'douglas_rachford_pd', 'Ms': Ms, 'f': f.desc, 'g': [g.desc for g in gs],
+                'l': None if ls is None else [l.desc for l in ls], 'tau': tau, 'sigma': sigma, 'lam': lams,
+                'x0': x0, 'niter': N},
+               ('dr', n, tuple(ms), f.coq, tuple(g.coq for g in gs), ls is None, tau, tuple(sigma), tuple(lams), N,
+                tuple(x0)) if N > 0 else None)
+
+
 GENS = [('fk', 'check_fk', 'case_fk', gen_fk), ('admm', 'check_admm', 'case_admm', gen_admm),
         ('adupdates', 'check_adup', 'case_adup', gen_adup), ('doubleprox_dc', 'check_dpdc', 'case_dpdc', gen_dpdc),
         ('pdhg', 'check_pdhg', 'case_pdhg', gen_pdhg), ('landweber', 'check_lw', 'case_lw', gen_lw),
         ('kaczmarz', 'check_kz', 'case_kz', gen_kz), ('proximal_gradient', 'check_pg', 'case_pg', gen_pg),
-        ('mlem', 'check_em', 'case_em', gen_em), ('steepest_descent', 'check_sd', 'case_sd', gen_sd)]
+        ('mlem', 'check_em', 'case_em', gen_em), ('steepest_descent', 'check_sd', 'case_sd', gen_sd),
+        ('douglas_rachford_pd', 'check_dr', 'case_dr', gen_dr)]
 
 
 def correspondence(rng, tier):
